@@ -820,6 +820,9 @@ def strip_comment(line):
     return line
 
 
+SIGNEXT_PARAMS = {}
+
+
 def parse_func_header(line):
     c = Cursor(line)
     c.expect("define" if line.startswith("define") else "declare")
@@ -848,7 +851,11 @@ def parse_func_header(line):
                 vararg = True
             else:
                 t = parse_type(c)
+                p0 = c.p if hasattr(c, "p") else c.pos
                 skip_param_attrs(c)
+                p1 = c.p if hasattr(c, "p") else c.pos
+                if "signext" in c.s[p0:p1]:
+                    SIGNEXT_PARAMS.setdefault(name, set()).add(len(params))
                 pname = None
                 if c.accept("%"):
                     pname = c.ident()
